@@ -499,11 +499,15 @@ impl MediaStreamTrack for SampleStreamTrack {
 
             {
                 let _pop_guard = self.pop_lock.lock();
+                // Read the closed flag before popping: a producer may push and then
+                // close between the two steps, and an empty pop followed by a closed
+                // flag read afterwards would report end-of-stream with samples queued.
+                let closed = self.source_closed.load(Ordering::Acquire);
                 if let Some(sample) = self.queue.pop() {
                     return Ok(sample);
                 }
 
-                if self.source_closed.load(Ordering::Acquire) {
+                if closed {
                     self.ended.store(true, Ordering::SeqCst);
                     return Err(MediaError::EndOfStream);
                 }
